@@ -682,6 +682,35 @@ func c18Bounds(c *Ctx) {
 	}
 }
 
+// C09.14: the scrambler's ClientHello parser (sni.go) never indexes or slices out of bounds: every index/slice site
+// reachable from findSNIAndECH is compiler-proven or follows from a length fact (BND engine).
+func c09SNIParserBounds(c *Ctx) {
+	const R = "C09.14"
+	root, err := c.P.Func1("", "", "findSNIAndECH")
+	if err != nil {
+		c.Bad(R, "root:findSNIAndECH", "-", "parser entry point not found")
+		return
+	}
+	c.FuncsSet[funcName(root)] = true
+	fns := c.P.reachStatic([]*ssa.Function{root}, func(pk string) bool { return pk == modPath })
+	unp, err := compilerUnproven(c.P.RepoDir, c.P.GOARCH, []string{"."})
+	if err != nil {
+		c.Err(R, "compiler bounds-check listing (root package)", err)
+		return
+	}
+	c.Floor(R, "bounds checks the compiler could not remove in the root package (listing alive)", len(unp), 50)
+	sites := c.P.bndSites(fns, unp, nil)
+	c.Floor(R, "index/slice sites in the ClientHello parser", len(sites), 8)
+	for _, st := range sites {
+		c.FuncsSet[funcName(st.Fn)] = true
+		key := st.Expr
+		if i := strings.Index(key, " ("); i > 0 {
+			key = key[:i]
+		}
+		c.Check(st.OK, R, "bnd:"+key, c.P.InstrPos(st.Instr), fmt.Sprintf("%s — %s", st.Expr, st.Why))
+	}
+}
+
 // ---- C01.7: stream and framer state is only touched with the owner's mutex held ----
 
 // guardedFields: fields that today are accessed under their struct's mutex at every site outside the constructors
